@@ -1,13 +1,14 @@
 #!/bin/bash
-# selftest/regress.sh [out file] [shard k of n]: every archived seeded change must still be reported by the quick checks
+# selftest/regress.sh [out file] [shard k] [of n] [all|seeded|benign]: every archived seeded change must still be reported by the quick checks
 # recorded in its meta.json (caught_by_quick), every archived behaviour-preserving refactoring must leave its checks
 # green.  Development-time only; scratch copies live under /var/tmp and are removed.
 cd /verif
-OUT=${1:-/var/tmp/regress.out}; K=${2:-0}; N=${3:-1}
+OUT=${1:-/var/tmp/regress.out}; K=${2:-0}; N=${3:-1}; ONLY=${4:-all}     # ONLY: all | seeded | benign
 : > $OUT
 export SCRATCH_COPY=/var/tmp/regresscopy$K
 i=0
 for d in seeded/*/ selftest/benign/*/; do
+  case $ONLY in seeded) case $d in seeded/*) ;; *) continue;; esac;; benign) case $d in selftest/*) ;; *) continue;; esac;; esac
   i=$((i+1)); [ $((i % N)) -eq $K ] || continue
   id=$(basename $d)
   case $d in
